@@ -9,6 +9,7 @@ import Driver.Consensus
 import Driver.Codec
 import Driver.Wallet
 import Driver.Genesis
+import Driver.Verify
 /-
 One line per handler object. The first handler that understands a line answers it.
 -/
@@ -30,7 +31,8 @@ def registry : List Obj := [
   pureObj pureAddMomentum,
   pureObj pureCodec,
   pureObj pureWallet,
-  pureObj pureGenesis
+  pureObj pureGenesis,
+  pureObj VerifyD.pureVerify
 ]
 
 end ZV.Driver
